@@ -12,6 +12,7 @@ import Mfi.Lemmas.FxL
 import Mfi.Lemmas.ResL
 import Mfi.Props.C18
 import Mfi.Lemmas.SkelL
+import Mfi.Lemmas.AccrualL
 
 namespace Mfi.Props.C06
 open Mfi Mfi.Fx Mfi.Bank Mfi.Interest Mfi.Gen
@@ -405,5 +406,30 @@ theorem ix_bankruptcy_at_accrued {ir : Interest.IrCalc} {now avail : Int} {b0 : 
   injection h with h
   subst h
   exact hbd
+
+/-! ### conservation across an accrual -/
+
+/-- **accrual_conserves** — "over any accrual the increase in total debt covers the increase in total deposits plus the
+    insurance, group and program fees booked, within the fixed-point allowance": with `sa`/`sl` the share totals and
+    `asv`/`lsv` the share values before, what the accrual credits to depositors plus what it books into the three fee
+    buckets is LESS than what it adds to the debt plus (per-period lending rate + one ulp of rate on the total debt + one
+    ulp of share value per debt share), in units of 2^-96 token. Proved in Mfi/Lemmas/AccrualL.lean through every floor
+    of `calc_interest_rate_accrual_state_changes`. (The other direction — nothing is charged that is not credited or
+    booked, beyond rounding — is monitored with exact big integers after every real instruction; a shortfall on that
+    side costs borrowers rounding dust and cannot take value from depositors.) -/
+theorem accrual_conserves {dt sa sl asv lsv : Int} {c : IrCalc} {ch : StateChanges}
+    (hsa : 0 ≤ sa) (hsl : 0 ≤ sl) (hasv : 0 ≤ asv) (hlsv : 0 ≤ lsv) (hdt : 0 ≤ dt)
+    (hta : 0 < sa * asv / ONE) (htl : 0 < sl * lsv / ONE) (hfees : Mfi.AccrualL.FeesOk c)
+    (hbase : ∀ r, calcInterestRate c (sl * lsv / ONE * ONE / (sa * asv / ONE)) = .ok r → 0 ≤ r.base)
+    (h : accrualStateChanges dt (sa * asv / ONE) (sl * lsv / ONE) c asv lsv = .ok ch) :
+    ∃ r, calcInterestRate c (sl * lsv / ONE * ONE / (sa * asv / ONE)) = .ok r ∧
+      sa * (ch.newAsv - asv) + (ch.insuranceFees + ch.groupFees + ch.protocolFees) * ONE <
+        sl * (ch.newLsv - lsv) + r.lending * dt / Mfi.AccrualL.YEAR + sl * lsv / ONE + sl :=
+  Mfi.AccrualL.accrual_conserves hsa hsl hasv hlsv hdt hta htl hfees hbase h
+
+/-- the fees an accrual books are never negative and never exceed the borrowers' spread (closed forms in AccrualL) -/
+theorem fees_within_spread {c : IrCalc} {ur : Int} {r : Rates} (h : calcInterestRate c ur = .ok r) (hb : 0 ≤ r.base) :
+    r.groupFee + r.insuranceFee + r.protocolFee + r.base ≤ r.borrowing :=
+  Mfi.AccrualL.fees_le_spread h hb
 
 end Mfi.Props.C06
